@@ -407,13 +407,26 @@ def r2_accounting_pairs_with_mutation(repo=None):
     q = ro.q(ro.add_record)
     g = m.cfg(q)
     store = [n for n in g.nodes if isinstance(n.ast, ast.Assign) and norm(ast.unparse(n.ast.targets[0])) == "self.records[rec.path]"]
-    test = [n for n in g.nodes if n.kind == "cond" and n.label == "rec.path in self.records"]
+    fq = m.fn(q)
+    once = {}
+    for a_ in pyfront.walk_no_nested(fq):
+        if isinstance(a_, ast.Assign) and len(a_.targets) == 1 and isinstance(a_.targets[0], ast.Name):
+            once.setdefault(a_.targets[0].id, []).append(a_.value)
+
+    def is_membership(e):
+        if isinstance(e, ast.Name) and len(once.get(e.id, ())) == 1:
+            e = once[e.id][0]       # `tracked = rec.path in self.records; if tracked:`
+        return isinstance(e, ast.Compare) and len(e.ops) == 1 and isinstance(e.ops[0], ast.In) and norm(ast.unparse(e)) == "rec.path in self.records"
+    test = [n for n in g.nodes if n.kind == "cond" and n.ast is not None and isinstance(n.ast, ast.expr) and is_membership(n.ast)]
     mod = [n.id for n in g.nodes if any(pyfront.call_name(c) == "self." + ro.modify for c in pyfront.node_calls(n))]
     if not store:
         raise AnalysisError("%s: self.records[rec.path] = rec not found" % q)
     if test and mod and all(s.id not in g.reach([g.entry.id], avoid=[test[0].id], skip_labels=("exc",)) for s in store) and \
             all(s.id not in g.reach([b for b, l in g.succ[test[0].id] if l == "T"], avoid=mod, skip_labels=("exc",)) for s in store):
         r.ok("%s:%s %s" % (m.rel, store[0].line, q), "a record that is already tracked is replaced only after _modify_record re-accounted it")
+    elif not test or not mod:
+        raise AnalysisError("%s: the membership test `rec.path in self.records` (%d) / the call of %s (%d) was not recognised" % (
+            q, len(test), ro.modify, len(mod)))
     else:
         r.violation(m.rel, q, "self.records[rec.path] = rec without _modify_record for an existing path", "re-adding a tracked file whose "
                     "size changed replaces its record without adjusting active_size: the accounted size no longer equals the sum of "
@@ -1017,12 +1030,96 @@ def r9_restat_replaces_the_record(repo=None):
     return r
 
 
+def r10_every_matched_file_gets_a_record(repo=None):
+    """'the ringbuffer bounds the files of every channel it watches': a file can only be expired if it is tracked, and it is tracked
+    only if the record builder gets past its regex-group reads.  A `m.group("<name>")` whose IndexError ends in skipping the file
+    (handler with `continue` / `return`) is safe only for a group that *every* path regex the handler can register defines; for a
+    group that some pattern lacks (the metadata pattern has no fractional part) all files of that kind are silently untracked and
+    no limit ever holds for them.  Group tables of the registered regex constants (regex syntax trees) against the group reads of
+    the record builder."""
+    import re as _re
+    r = Rule("C16.R10", "a regex group whose absence makes the record builder skip a file exists in every path pattern the handler registers")
+    ro = rbroles.roles(repo)
+    m = ro.m
+    q = ro.q(ro.make_record)
+    f = m.flat(q).fn()
+    # the patterns: constants appended to `regexes` in the event handler's constructor, data-file patterns (a `secs` group)
+    wm = pyfront.mod("watchdog_drf", repo)
+    fold = cfold.Folder(repo)
+    pats = {}
+    # the path patterns the handler can register: the regex constants of list_drf that watchdog_drf imports and its module uses
+    # (appended one by one, or listed in a table the constructor walks)
+    imported = {}
+    for st in wm.tree.body:
+        if isinstance(st, ast.ImportFrom) and (st.module or "").split(".")[-1] == "list_drf":
+            for al in st.names:
+                imported[al.asname or al.name] = al.name
+    used = {x.id for x in ast.walk(wm.tree) if isinstance(x, ast.Name) and isinstance(x.ctx, ast.Load) and x.id in imported}
+    used |= {x.attr for x in ast.walk(wm.tree) if isinstance(x, ast.Attribute) and pyfront.dotted(x.value) == "list_drf" and x.attr.startswith("RE_")}
+    for nm in sorted(used):
+        try:
+            v = fold.name("list_drf", imported.get(nm, nm))
+        except AnalysisError:
+            continue
+        if isinstance(v, str):
+            try:
+                pats[nm] = set(_re.compile(v).groupindex)
+            except _re.error:
+                continue
+    data_pats = {k: v for k, v in pats.items() if "secs" in v}
+    if len(data_pats) < 2:
+        raise AnalysisError("watchdog_drf: %d data-file patterns with a `secs` group found among the registered constants, 3 confirmed" % len(data_pats))
+    par = {}
+    for x in ast.walk(f):
+        for ch in ast.iter_child_nodes(x):
+            par[ch] = x
+    n = 0
+    for c in ast.walk(f):
+        if not (isinstance(c, ast.Call) and isinstance(c.func, ast.Attribute) and c.func.attr == "group" and len(c.args) == 1
+                and isinstance(c.args[0], ast.Constant) and isinstance(c.args[0].value, str)):
+            continue
+        gname = c.args[0].value
+        n += 1
+        # the try statement whose body holds the call and that catches IndexError
+        skipping = None
+        x, p_ = c, par.get(c)
+        while p_ is not None:
+            if isinstance(p_, ast.Try) and any(x is st for st in p_.body):
+                for h in p_.handlers:
+                    names = ["<any>"] if h.type is None else [pyfront.dotted(h.type)] if not isinstance(h.type, ast.Tuple) else [pyfront.dotted(e) for e in h.type.elts]
+                    if any(nm in ("IndexError", "LookupError", "Exception", "<any>") for nm in names):
+                        skipping = any(isinstance(y, (ast.Continue, ast.Return)) for st in h.body for y in ast.walk(st))
+                        break
+                if skipping is not None:
+                    break
+            x, p_ = p_, par.get(p_)
+        lacking = sorted(k for k, v in data_pats.items() if gname not in v)
+        site = "%s:%s %s `%s`" % (m.rel, c.lineno, q, norm(ast.unparse(c)))
+        if not lacking:
+            r.ok(site, "group `%s` is defined by every registered data-file pattern (%s)" % (gname, ", ".join(sorted(data_pats))))
+        elif skipping is None:
+            raise AnalysisError("%s: `%s` is not inside a try that catches IndexError although %s has no such group: not decided" % (q, norm(ast.unparse(c)), lacking))
+        elif skipping:
+            r.violation(m.rel, q, norm(ast.unparse(c)), "the pattern(s) %s have no group `%s`; the IndexError of this read is caught by a handler that "
+                        "skips the file, so no file matched by those patterns ever gets a record: the files of that kind are not tracked "
+                        "and none of the limits (count, duration, size) holds for them" % (", ".join(lacking), gname), line=c.lineno)
+        else:
+            r.ok(site, "group `%s` is missing from %s, and the handler of its IndexError supplies a default instead of skipping the file" % (
+                gname, ", ".join(lacking)))
+    if n < 2:
+        raise AnalysisError("%s: %d regex-group reads found, 2 confirmed on the reference tree" % (q, n))
+    r.guard(2)
+    return r
+
+
 def rules(repo=None):
-    return [lambda: r9_restat_replaces_the_record(repo), lambda: r8_events_batches_and_rescan(repo), lambda: r7_moved_file_counted_once(repo), lambda: r6_scan_agrees_with_event_filter(repo), lambda: r1_only_tracked_paths_deleted(repo), lambda: r2_accounting_pairs_with_mutation(repo),
+    return [lambda: r10_every_matched_file_gets_a_record(repo), lambda: r9_restat_replaces_the_record(repo), lambda: r8_events_batches_and_rescan(repo), lambda: r7_moved_file_counted_once(repo), lambda: r6_scan_agrees_with_event_filter(repo), lambda: r1_only_tracked_paths_deleted(repo), lambda: r2_accounting_pairs_with_mutation(repo),
             lambda: r3_oldest_first_and_owners(repo), lambda: r4_limits_reestablished(repo), lambda: r5_growth_rechecks_the_limit(repo)]
 
 
 EXPLANATION = (
+    'R10: every regex group whose IndexError makes _get_file_record skip the file is defined by all data-file patterns the event handler '
+    'can register (group tables of the constants); an optional group (frac) must be defaulted, not skipped. '
     'R1: the three mutating calls of ringbuffer.py act on rec.path of a record popped from self.records / its directory; '
     'records are built only in _get_file_record after a regex match with a secs group; the handler is built with '
     'properties excluded and its regexes accept no properties path. R2: for each SizeExpirer override that adjusts '
